@@ -23,6 +23,22 @@ def ctzAux : Nat → Nat → Nat
   | 0, _ => 0
   | f + 1, x => if x % 2 = 1 then 0 else ctzAux f (x / 2) + 1
 def ctz (w a : Nat) : Nat := if a = 0 then w else ctzAux w a
+/-- `reverse_bits` of a `w`-bit word -/
+def revAux : Nat → Nat → Nat → Nat
+  | 0, _, acc => acc
+  | f + 1, x, acc => revAux f (x / 2) (2 * acc + x % 2)
+def rev (w a : Nat) : Nat := revAux w a 0
+/-- `iter().position(p)` -/
+def position (p : Nat → Bool) : List Nat → Option Nat
+  | [] => none
+  | x :: xs => if p x then some 0 else (position p xs).map (· + 1)
+/-- `iter().rposition(p)`: index of the last element satisfying `p` -/
+def rposition (p : Nat → Bool) : List Nat → Option Nat
+  | [] => none
+  | x :: xs =>
+    match rposition p xs with
+    | some i => some (i + 1)
+    | none => if p x then some 0 else none
 /-- iterate `step` (new state, continue?) at most `fuel` times, stopping when it says so -/
 def loop {σ : Type} (step : σ → σ × Bool) : Nat → σ → σ
   | 0, s => s
